@@ -107,6 +107,9 @@ def oversize_body(rng, n, kind):
         return inner + hdr(min(MAXF, rest + 1 + rng.randrange(100))) + bytes(rest)
     if kind == "zeros":
         return bytes(n)
+    if kind == "tailfr":       # well-formed frames at the very END of the body (a skip loop that stops early leaves them in the stream)
+        inner = fr("PUT t tail%d" % rng.randrange(100)) + fr("GET t")
+        return bytes(rng.randrange(1, 256) for _ in range(n - len(inner))) + inner
     if kind == "text":
         return (b"PUT t " + b"x" * n)[:n]
     if kind == "quiet":        # first inner header announces an in-range length that the body cannot satisfy -> silence afterwards
@@ -126,7 +129,7 @@ def malformed(rng, big_ok):
     if r < 0.9 or not big_ok:
         return fr(rng.choice(BAD_CMDS))
     n = rng.choice([MAXF + 1, MAXF + 1, MAXF + 2, MAXF + 1 + rng.randrange(300)])
-    return hdr(n) + oversize_body(rng, n, rng.choice(["smuggle", "zeros", "text", "quiet", "random"]))
+    return hdr(n) + oversize_body(rng, n, rng.choice(["smuggle", "zeros", "text", "quiet", "random", "tailfr"]))
 
 
 def rand_stream(rng, nframes, p_bad, big_ok, topics):
@@ -173,6 +176,16 @@ def boundary_streams(rng, tier):
             A(hdr(n) + b)
             A(fr("PUT t pre") + hdr(n) + b + fr("GET t") + fr("GET t"))
             A(hdr(n) + b[:-1])
+    # the refused body is skipped in chunks (client.rs discard_exact): announced lengths at and around
+    # multiples of every power-of-two chunk size up to 8192, bodies whose LAST bytes are well-formed frames
+    # (seeded change c24b-1 — a skip loop that mishandles exact multiples of its chunk — was missed before these)
+    for n in ([MAXF + 4096, 2 * MAXF, MAXF + 4096 + 1, 2 * MAXF - 1] if tier == "quick"
+              else [MAXF + (1 << k) + d for k in range(6, 14) for d in (-1, 0, 1)] + [2 * MAXF, 2 * MAXF + 1, 3 * MAXF, 4 * MAXF - 4096]):
+        if n <= MAXF:
+            continue
+        for kind in ["tailfr", "zeros"]:
+            b = oversize_body(rng, n, kind)
+            A(fr("PUT t pre") + hdr(n) + b + fr("GET t") + fr("GET t") + fr("GET t"))
     # every invalid-UTF-8 class at the start, middle and end of a PUT payload and as the whole body
     for bad in BAD_UTF8:
         A(fr(bad) + tailgood)
